@@ -212,3 +212,53 @@ Example witness :
   [(WBlock, [1]); (WBlock, [2; 1]); (WBlock, [3; 2; 1]); (WBlock, [4; 3; 2; 1]); (WBlock, [4; 3; 2; 1]); (WPipe 2, [4; 3; 2; 1]);
    (WBlock, [4; 2; 1]); (WFail, [4; 2; 1]); (WBlock, [4; 2; 1]); (WBlock, [2]); (WBlock, [2]); (WBlock, [2]); (WClosed, [2])].
 Proof. vm_compute. reflexivity. Qed.
+
+(* ---- completions are returned in order, each once ---- *)
+(* what a completed handshake puts on the done queue (before Close) *)
+Definition fin_of (s : hst) (o : hop) : list wres :=
+  match o with
+  | HFinish c ok => if nmem c (h_work s) then [if ok then WPipe c else WFail] else []
+  | _ => []
+  end.
+Fixpoint finished (s : hst) (ops : list hop) : list wres :=
+  match ops with
+  | [] => []
+  | o :: r => fin_of s o ++ finished (fst (hstep s o)) r
+  end.
+Definition is_result (w : wres) : bool := match w with WPipe _ | WFail | WLate _ => true | _ => false end.
+Definition results (ws : list wres) : list wres := filter is_result ws.
+Definition all_results (d : list wres) : Prop := forall w, In w d -> is_result w = true.
+
+Lemma step_fifo s o : h_closed s = false -> all_results (h_done s) -> o <> HClose ->
+  h_closed (fst (hstep s o)) = false /\ all_results (h_done (fst (hstep s o))) /\
+  results [snd (hstep s o)] ++ h_done (fst (hstep s o)) = h_done s ++ fin_of s o.
+Proof.
+  intros Hc Ha Hn. destruct o as [c|c ok| |]; unfold hstep, fin_of; rewrite ?Hc.
+  - destruct (nmem c (h_seen s)); cbn [fst snd h_closed h_done results filter is_result app]; rewrite ?app_nil_r; repeat split; auto.
+  - destruct (nmem c (h_work s)); cbn [negb]; [|cbn [fst snd h_closed h_done results filter is_result app]; rewrite ?app_nil_r; repeat split; auto].
+    destruct ok; cbn [negb fst snd h_closed h_done results filter is_result app]; (split; [reflexivity|]); (split; [|reflexivity]);
+      intros w Hw; apply in_app_or in Hw; destruct Hw as [Hw|[Hw|[]]]; try (apply Ha; exact Hw); subst; reflexivity.
+  - destruct (h_done s) as [|w r] eqn:Ed; cbn [fst snd h_closed h_done results filter is_result app]; [rewrite Ed; repeat split; [exact Hc|intros w []]|].
+    split; [reflexivity|]. split; [intros x Hx; apply Ha; right; exact Hx|].
+    rewrite ?app_nil_r. rewrite (Ha w (or_introl eq_refl)). reflexivity.
+  - congruence.
+Qed.
+
+(* FIFO, nothing lost, nothing invented: as long as the handshaker is open, what the Waits returned so far followed by
+   what is still on the done queue is exactly the list of handshakes that completed, in the order they completed *)
+Theorem wait_returns_completions_in_order : forall ops s, h_closed s = false -> all_results (h_done s) ->
+  (forall o, In o ops -> o <> HClose) ->
+  results (snd (hrun s ops)) ++ h_done (fst (hrun s ops)) = h_done s ++ finished s ops.
+Proof.
+  induction ops as [|o ops IH]; intros s Hc Ha Hn; cbn [hrun finished].
+  - cbn [hrun fst snd results filter app finished]. rewrite ?app_nil_r. reflexivity.
+  - destruct (step_fifo s o Hc Ha (Hn o (or_introl eq_refl))) as (Hc1 & Ha1 & E1).
+    destruct (hstep s o) as [s1 w] eqn:Es. cbn [fst snd] in *.
+    specialize (IH s1 Hc1 Ha1 (fun x Hx => Hn x (or_intror Hx))).
+    destruct (hrun s1 ops) as [s2 ws] eqn:Er. cbn [fst snd] in *.
+    unfold results in *. change (w :: ws) with ([w] ++ ws). rewrite filter_app, <- app_assoc, IH, app_assoc, E1, <- app_assoc. reflexivity.
+Qed.
+
+Corollary wait_fifo_from_start : forall ops, (forall o, In o ops -> o <> HClose) ->
+  results (snd (hrun h0 ops)) ++ h_done (fst (hrun h0 ops)) = finished h0 ops.
+Proof. intros ops H. apply (wait_returns_completions_in_order ops h0 eq_refl); [intros w []|exact H]. Qed.
